@@ -135,6 +135,27 @@ fn kb_total_duration() {
     assert!(t.total_duration() == sum);
 }
 
+/// BOUNDED (n <= 3): total_duration_fits(samples, last) is exactly "the durations the tables will carry sum to at most u32::MAX".
+#[kani::proof]
+#[kani::unwind(5)]
+fn kb_total_duration_fits() {
+    let n: usize = kani::any();
+    kani::assume(n <= 3);
+    let last: Option<u32> = kani::any();
+    let mut v: Vec<SampleInfo> = Vec::new();
+    let mut sum: u128 = 0;
+    let mut i = 0;
+    while i < n {
+        let d: Option<u32> = kani::any();
+        let eff: u32 = match d { Some(x) => x, None => if i + 1 == n { match last { Some(l) => l, None => 1 } } else { 1 } };
+        sum += eff as u128;
+        v.push(SampleInfo { pts: kani::any(), dts: kani::any(), data: Vec::new(), is_keyframe: false, duration: d });
+        i += 1;
+    }
+    let r = Mp4Writer::<Vec<u8>>::total_duration_fits(&v, last);
+    assert!(r == (sum <= u32::MAX as u128));
+}
+
 fn check_schedule(nv: usize, na: usize) {
     let mut w: Mp4Writer<Vec<u8>> = Mp4Writer::new(Vec::new(), VideoCodec::H264);
     let mut i = 0;
